@@ -845,6 +845,13 @@ func toASTPosition(pos Position) ast.Position {
 	}
 }
 
+// ParseQuantity reads a number the way amounts are read: blanks used as digit group marks are
+// dropped and decimal and group marks are told apart.
+func ParseQuantity(number string) (decimal.Decimal, error) {
+	number = strings.ReplaceAll(number, " ", "")
+	return decimal.NewFromString(normalizeNumber(number))
+}
+
 func normalizeNumber(s string) string {
 	// only the mantissa carries decimal and group marks; keep the exponent as written
 	if i := strings.IndexAny(s, "eE"); i > 0 {
